@@ -689,7 +689,10 @@ func ruleStageGatedAccessor(c *Ctx) {
 				// site that cannot be reached in that world (it needs NeedBlocks() to be true or IsActive() to be
 				// false) is gated with the right polarity.
 				unsafe := symAssume("pkg/network.(StateSync).NeedBlocks", false, "pkg/core/statesync.(*Module).NeedBlocks", false,
-					"pkg/network.(StateSync).IsActive", true, "pkg/core/statesync.(*Module).IsActive", true)
+					"pkg/network.(StateSync).IsActive", true, "pkg/core/statesync.(*Module).IsActive", true,
+					// the answers bound to locals first (`needBlocks := s.stateSync.NeedBlocks()`)
+					"local<-pkg/network.(StateSync).NeedBlocks", false, "local<-pkg/core/statesync.(*Module).NeedBlocks", false,
+					"local<-pkg/network.(StateSync).IsActive", true, "local<-pkg/core/statesync.(*Module).IsActive", true)
 				live := f.reach(f.Entry(), nil, unsafe)
 				res = true
 				for b := range tm {
@@ -11921,7 +11924,7 @@ func ruleTxStoredAtBlockIndex(c *Ctx) {
 			}
 			n++
 			key := fmt.Sprintf("tx-stored-at-block-index.%s#%d", shortSym(FuncKey(fd.Obj)), n)
-			arg := ast.Unparen(s.call.Args[1])
+			arg := ast.Unparen(resolveLocalOnce(f.Info, fd.Decl.Body, s.call.Args[1]))
 			se, ok := arg.(*ast.SelectorExpr)
 			good := false
 			if ok && se.Sel.Name == "Index" {
@@ -12198,7 +12201,7 @@ func ruleOriginalTxThroughResponse(c *Ctx) {
 				return true
 			})
 		}
-		visit(kv.Value, 0)
+		visit(resolveLocalOnce(info, fd.Decl.Body, kv.Value), 0)
 		if looks {
 			c.OK("original-tx-through-response", c.P.Pos(kv.Pos()), "a request made from an oracle callback inherits the original transaction of the request being answered")
 		} else {
@@ -12209,6 +12212,66 @@ func ruleOriginalTxThroughResponse(c *Ctx) {
 	if !found {
 		c.Lost("original-tx-through-response.shape", "RequestInternal no longer builds a request with an OriginalTxID")
 	}
+}
+
+// resolveLocalOnce: an identifier that names a local with exactly one definition in body (and no other assignment,
+// increment or address-of) stands for the expression it was defined with; anything else is returned as it is.
+func resolveLocalOnce(info *types.Info, body ast.Node, e ast.Expr) ast.Expr {
+	id, ok := ast.Unparen(e).(*ast.Ident)
+	if !ok {
+		return e
+	}
+	o := info.ObjectOf(id)
+	if o == nil {
+		return e
+	}
+	var def ast.Expr
+	n := 0
+	ast.Inspect(body, func(x ast.Node) bool {
+		switch y := x.(type) {
+		case *ast.AssignStmt:
+			for i, l := range y.Lhs {
+				if li, ok := l.(*ast.Ident); ok && info.ObjectOf(li) == o {
+					n++
+					if len(y.Lhs) == len(y.Rhs) {
+						def = y.Rhs[i]
+					} else {
+						n++
+					}
+				}
+			}
+		case *ast.ValueSpec:
+			for i, nm := range y.Names {
+				if info.ObjectOf(nm) == o {
+					n++
+					if i < len(y.Values) {
+						def = y.Values[i]
+					} else {
+						n++
+					}
+				}
+			}
+		case *ast.IncDecStmt:
+			if li, ok := y.X.(*ast.Ident); ok && info.ObjectOf(li) == o {
+				n += 2
+			}
+		case *ast.UnaryExpr:
+			if li, ok := y.X.(*ast.Ident); ok && y.Op == token.AND && info.ObjectOf(li) == o {
+				n += 2
+			}
+		case *ast.RangeStmt:
+			for _, l := range []ast.Expr{y.Key, y.Value} {
+				if li, ok := l.(*ast.Ident); ok && info.ObjectOf(li) == o {
+					n += 2
+				}
+			}
+		}
+		return true
+	})
+	if n == 1 && def != nil {
+		return def
+	}
+	return e
 }
 
 // ruleEpochBoundaryAgrees (C19, C01): the values of the next epoch (committee, next validators) are computed when the
@@ -12424,7 +12487,7 @@ func ruleLayerCacheFresh(c *Ctx) {
 			return ok && se.Sel.Name == "Copy" && len(call.Args) == 0
 		}
 		isFreshMap := func(e ast.Expr) bool {
-			e = ast.Unparen(e)
+			e = ast.Unparen(resolve(e))
 			if isNilIdent(info, e) {
 				return true
 			}
@@ -12680,6 +12743,11 @@ func ruleScopeFieldUnderBit(c *Ctx) {
 				case *ast.IfStmt:
 					// inside the body (not the else branch) of a test that mentions the bit
 					if i+1 < len(stack) && stack[i+1] == ast.Node(p.Body) && mentionsConst(p.Cond, want) {
+						guarded = true
+					}
+				case *ast.BinaryExpr:
+					// the right operand of `bit-test && …`
+					if p.Op == token.LAND && i+1 < len(stack) && stack[i+1] == ast.Node(p.Y) && mentionsConst(p.X, want) {
 						guarded = true
 					}
 				case *ast.BlockStmt:
